@@ -151,6 +151,23 @@ CHECKS["C18"] = dict(
 NA_REASON = {}
 DEFAULT_NA = "not claimed yet: static checker for this property is still under construction (design in DESIGN.md §4)"
 
+# texts added for the rules built in rounds 2 and 3 (appended to the level text)
+EXTRA_TEXT = {
+ "C06": " Added in rounds 2-3: (4) date-time properties are formatted and parsed with the layout the schema demands (RFC3339Nano unless x-goag-go-time-format); (5) every looked-up key is deleted from the shared raw map before a later additionalProperties collector ranges over it (flattened through allOf delegation); (6) a set nullable array is nil-normalised; (7) integers are not decoded through float variables; (8) null tests are exactly string(raw)==\"null\" (truth table over their two atoms); (9) every MarshalJSON has a value receiver.",
+ "C07": " Added: the JSON body helper is exactly json.NewEncoder(w).Encode(v); every MarshalJSON has a value receiver; a component that is a bare $ref to another delegates both JSON methods to it.",
+ "C13": " Added: fmt.Sprintf with a single %q is accepted as the literal producer; a field-based step in the bytes flow; every parameter of package goag's functions on the generation path is used (no flag silently replaced).",
+ "C14": " Added: value-dependent panics of make/Grow/Repeat/MustCompile with a computed argument; func- or interface-typed fields of package structs are nil-tested before they are called unless every in-package construction sets them; bounds inside splitPath and the path-segment extraction are proven by a case-partitioned evaluation (strcut) whatever their spelling; a witness package is flagged on every run.",
+ "C15": " Added: schema-ref-phase (Schema methods that follow Ref into a possibly unfilled component are guarded by Ref == nil in the construction phase); template-nil-chain (typed templates: a field chain through an optional pointer stands under an if/with/and guard of that prefix or a call-site guarantee); the exit-code rule follows Generate* errors interprocedurally to a fatal exit.",
+ "C12": " Added: comparator sorts count only when the comparator is a plain element comparison; hash/maphash and package-level initialisers are scanned; FuncMap functions are resolved from the literal; the per-spec loop of --dir carries no variable between iterations; file-system reads are classified by role.",
+ "C19": " Added: the re-run clause is decided here as well (C12's order/environment/state enumeration under C19 rule names); unconditional remove wrappers and constant name tables are summarised.",
+ "C11": " Added: the OR-combinator is interpreted path by path (authcomb), authenticators by value flow; known findings carry the authenticator set observed today as `match`.",
+ "C16": " Added: own-template (the leaf reached for an instance of a declared template returns exactly that template); the middleware loop is recognised by its index progression (revloop) in any spelling.",
+ "C03": " The splitter's contract is decided by a case-partitioned evaluation of its body (strcut), not by its spelling.",
+ "C05": " The segment extraction is decided by the same case-partitioned evaluation (strcut).",
+ "C09": " Added: the client formats date-time parameters with the declared layout.",
+ "C01": " Added: fmt-or-error follows formatter wrappers and parameters to their call sites.",
+}
+
 def main():
     checks = []
     for pid in ALL:
@@ -164,7 +181,7 @@ def main():
             "evidence_file": "/verif/evidence/%s.json" % pid,
             "replay_cmd_template": "cat {path}; ./check.sh %s quick" % pid,
             "engine": "verif",
-            "level_claimed": {"category": "other", "text": c["text"], "design_ref": "DESIGN.md " + c["design"]},
+            "level_claimed": {"category": "other", "text": c["text"] + EXTRA_TEXT.get(pid, ""), "design_ref": "DESIGN.md " + c["design"]},
             "level_note": c["note"],
             "technique": c["technique"],
         })
